@@ -16,7 +16,12 @@
                         `submitApp`); its callback is attached only after F(f) is released.
     discard j           worker: a job carrying `stop_retry`: pop it, `copy_future(old_delegate, future)`
     ddone d c           the delegate future d becomes done (c = it was cancelled)
-    cbCancelled d       `_delegate_callback`, delegate cancelled: pop the job, `_me_delegate_cancelled()`
+    cbCancelled d       `_delegate_callback`, delegate cancelled: `_pop_job` [X]; the call of `_me_delegate_cancelled()` is then owed
+    cbMark f d inl      `_me_delegate_cancelled()` of future f (owed by the callback of delegate d)                      [F(f)]
+                        inl = true: it runs on the thread that is itself inside `cancel()` of f (the callback was invoked inline
+                        by that thread's `delegate.cancel()`): the RLock is re-entered, `_me_cancelling` is set, nothing happens -
+                        the cancel in progress will finish the job.  inl = false: any other thread: it has to ACQUIRE F(f), i.e.
+                        it waits for a cancel() in progress / the hand-over window to end, and then cancels f unless it is done.
     cbPolicy d r        `eval_policy`: unlocked read of `stop_retry` (r = none: it was set, policy not consulted), else the
                         policy (environment) decides r
     cbRetry d           `_retry`: pop + append the delayed job (stop_retry inherited inside the lock)               [X]
@@ -68,6 +73,7 @@ structure St where
   done : List Nat := []                  -- futures in a terminal state
   cancelling : List (Nat × CSt) := []    -- cancel() calls in progress (they hold F(f))
   submitting : Option Job := none        -- `_submit_now` between its pop and its append: the in-flight job it will append
+  marks : List (Nat × Nat) := []         -- owed `_me_delegate_cancelled()` calls: (future, the cancelled delegate whose callback owes it)
   decs : List (Nat × Dec) := []          -- callbacks between eval_policy and their section
   -- ghosts
   submitted : List Nat := []             -- futures handed out by submit()
@@ -87,6 +93,7 @@ inductive Act
   | discard (j : Job)
   | ddone (d : Nat) (cancelled : Bool)
   | cbCancelled (d : Nat)
+  | cbMark (f : Nat) (d : Nat) (inl : Bool)
   | cbPolicy (d : Nat) (r : Option Pol)
   | cbRetry (d : Nat)
   | cbFinal (d : Nat)
@@ -137,12 +144,22 @@ def step (s : St) : Act → Option St
       match jobOfDel s d with
       | some j =>
           if d ∈ s.delCancelled then
-            -- `_me_delegate_cancelled`: nothing to do while our own cancel() is in progress or when already done
-            some { s with jobs := s.jobs.erase j,
-                          done := if cancellingF s j.fut || decide (j.fut ∈ s.done) then s.done else s.done ++ [j.fut],
-                          qGauge := s.qGauge - 1 }
+            some { s with jobs := s.jobs.erase j, marks := s.marks ++ [(j.fut, d)], qGauge := s.qGauge - 1 }
           else none
       | none => none
+  | .cbMark f d inl =>
+      if (f, d) ∈ s.marks then
+        if inl then
+          -- same thread as the `cancel()` of f whose `delegate.cancel()` is running this callback: only possible between that
+          -- cancel's scan (which found delegate d) and the return of `d.cancel()`
+          match s.cancelling.lookup f with
+          | some (.scanned (some d') _) => if d' = d then some { s with marks := s.marks.erase (f, d) } else none
+          | _ => none
+        else
+          if holdsF s f = false then
+            some { s with marks := s.marks.erase (f, d), done := if f ∈ s.done then s.done else s.done ++ [f] }
+          else none
+      else none
   | .cbPolicy d r =>
       match jobOfDel s d with
       | some j =>
